@@ -9,7 +9,15 @@ import (
 	"ivgsa/internal/sym"
 )
 
-func init() { register("C05", ruleC05) }
+func init() { register("C05", ruleC05, ruleC05_shared) }
+
+// ruleC05_shared: the viewBox->rectangle map C05 relies on is only right if it is recomputed whenever the target
+// rectangle is set (shared with C16.1, which owns the rule).
+func ruleC05_shared(c *Ctx) {
+	c.R.Only("C16.1")
+	ruleC16(c)
+	c.R.Only()
+}
 
 // verbExp is the reference meaning of one Renderer drawing method, written
 // from the property statement: which rasteriser calls, with which pixel-space
